@@ -22,7 +22,9 @@
    operation histories for replay on the real tab list. *)
 EXTENDS Integers, Sequences, FiniteSets, TLC, Json
 
-CONSTANTS Versions,   \* viewer protocol numbers, subset of {761, 768, 769} (1.19.3, 1.21.2, 1.21.4)
+CONSTANTS Versions,   \* viewer protocol numbers: 761 (1.19.3), 767 (1.21), 768 (1.21.2), 769 (1.21.4) = both sides
+                      \* of every version switch of the tab list (NBT display names 765, list order 768, hat 769)
+          FullVersions, \* versions explored with the whole alphabet; the others with the API operations only
           MaxLen,
           InPlaceProfile   \* FALSE: as required; TRUE: broken variant (re-adding an id with another
                            \* profile only sends the changed attributes) -- must violate Match
@@ -131,7 +133,8 @@ EntryLists == {<<Tpl(1, 1)>>, <<Tpl(1, 3)>>, <<Tpl(1, 4)>>, <<Tpl(2, 0)>>, <<Tpl
                <<Tpl(1, 1), Tpl(2, 3)>>, <<Tpl(2, 4), Tpl(1, 2)>>, <<Tpl(1, 1), Tpl(1, 4)>>}
 BUpsertOps(v) == {OpRec("bupsert", 0, NoEntry, "", 0, "", FALSE, <<>>, VerActs(v, a), es) :
                     a \in ActionSets, es \in EntryLists}
-Ops(v) == AddOps \cup AddManyOps \cup SetOps \cup RemoveOps \cup BRemoveOps \cup BUpsertOps(v)
+Ops(v) == AddOps \cup AddManyOps \cup SetOps \cup RemoveOps
+          \cup (IF v \in FullVersions THEN BRemoveOps \cup BUpsertOps(v) ELSE {})
 
 Upsert(acts, es) == [k |-> "upsert", actions |-> acts, entries |-> es, ids |-> <<>>]
 Remove(ids) == [k |-> "remove", actions |-> <<>>, entries |-> <<>>, ids |-> ids]
